@@ -65,6 +65,87 @@ def incs_of(n, var='opIter'):
         x.get('ref', {}).get('name') == var for x in sub(s))]
 
 
+def check_divisions(rep, fb, rule):
+    """every integer / and % in PromelaDataModel::evaluateExpr is dominated by a zero test of its divisor that leaves the arm"""
+    ev = fb.fn('uscxml::PromelaDataModel::evaluateExpr', params=['void *'])
+    g = cfgm.CFG(ev)
+    divs = [n for n in ev.walk() if n['k'] == 'BinaryOperator' and n.get('op') in ('/', '%') and 'int' in n.get('t', '')]
+    rep.minimum(rule, len(divs), 2, 'integer / and % in evaluateExpr')
+    for d in divs:
+        div = strip(d['c'][1])
+        lid = div['ref'].get('lid') if div['k'] == 'DeclRefExpr' else None
+        ok = False
+        if lid is not None:
+            for bid, b in g.blocks.items():
+                c = b.get('cond')
+                if c is None or c not in ev.nodes:
+                    continue
+                cn = strip(ev.nodes[c])
+                zero_edge = None
+                if cn['k'] == 'BinaryOperator' and cn.get('op') in ('==', '!='):
+                    l, r = strip(cn['c'][0]), strip(cn['c'][1])
+                    if l['k'] == 'DeclRefExpr' and l['ref'].get('lid') == lid and tab.const_of(r) == 0:
+                        zero_edge = True if cn['op'] == '==' else False
+                if zero_edge is None:
+                    continue
+                succ = g.succ_labeled(bid)
+                zs = [s for s, lab in succ if lab is zero_edge]
+                nz = [s for s, lab in succ if lab is (not zero_edge)]
+                if not zs or d['id'] not in g.pos:
+                    continue
+                # the division is not reachable from the zero edge, and every path to it passes this test
+                tgt = g.pos[d['id']][0]
+                from_zero = tgt in g.reachable_blocks(zs[0])
+                # paths avoiding the test block
+                seen = {g.entry}
+                work = [g.entry]
+                while work:
+                    x = work.pop()
+                    for s in g.succ(x):
+                        if s != bid and s not in seen:
+                            seen.add(s)
+                            work.append(s)
+                if not from_zero and tgt not in seen:
+                    ok = True
+        rep.check(ok, rule, 'evaluateExpr|%s' % d['op'], locstr(d), 'integer %s with divisor `%s`: zero test that leaves the arm %s' % (d['op'], fb.text(d['c'][1]), 'dominates it' if ok else 'is MISSING (SIGFPE)'))
+
+
+def check_index_bounds(rep, fb, rule):
+    """array index computations in PromelaDataModel::get/setVariable are rejected below 0 and from the declared size on"""
+    # array index guards
+    idx_sites = 0
+    for fq in ('uscxml::PromelaDataModel::setVariable', 'uscxml::PromelaDataModel::getVariable'):
+      for f in fb.fns(fq):
+        for n in f.walk():
+            if n['k'] == 'DeclStmt' and n.get('decls') and n['decls'][0]['name'] == 'index' and n['decls'][0]['t'] == 'int':
+                lid = n['decls'][0]['lid']
+                comp = f.parent(n)
+                lower = upper = False
+                upper_k = None
+                for s in sub(comp):
+                    if s['k'] == 'BinaryOperator' and s.get('op') in ('<', '<=', '>', '>='):
+                        l, r = strip(s['c'][0]), strip(s['c'][1])
+                        li = l['k'] == 'DeclRefExpr' and l['ref'].get('lid') == lid
+                        ri = r['k'] == 'DeclRefExpr' and r['ref'].get('lid') == lid
+                        if li and tab.const_of(r) == 0 and s['op'] == '<':
+                            lower = True
+                        if ri and tab.const_of(l) == 0 and s['op'] == '>':
+                            lower = True
+                        if (ri or li) and tab.const_of(l if ri else r) is None:
+                            # error condition in the form  index - SIZE >= k : k must be <= 0 to reject index == SIZE
+                            k = None
+                            if ri:       # SIZE op index
+                                k = {'<=': 0, '<': 1}.get(s['op'])
+                            else:        # index op SIZE
+                                k = {'>=': 0, '>': 1}.get(s['op'])
+                            if k is not None:
+                                upper = (k <= 0)
+                                upper_k = k
+                idx_sites += 1
+                rep.check(lower and upper, rule, '%s|index-bounds' % fq, locstr(n), 'array index error test: index - size >= %s (must be <= 0 to reject index == size): %s; index < 0 rejected: %s' % (upper_k, upper, lower))
+    rep.minimum(rule, idx_sites, 2, 'array index computations in get/setVariable')
+
+
 def run(rep, tier):
     rep.rule('R17.1', 'precedence/associativity: for every ordered pair (quick) / triple (thorough) of the 15 binary operators the shipped LALR tables group `c op c op c` like Promela/C; unary -/! bind at least as tight as value-equivalence requires')
     rep.rule('R17.2', 'every operator of the property\'s set that an expr production constructs has an arm in evaluateExpr; every other constructed kind reaches the default arm that raises error.execution')
@@ -243,67 +324,5 @@ def run(rep, tier):
     rep.ok('R17.4', 'evaluators', '%d operator/call expressions inspected' % n_full)
 
     # ---- R17.5
-    g = cfgm.CFG(ev)
-    divs = [n for n in ev.walk() if n['k'] == 'BinaryOperator' and n.get('op') in ('/', '%') and 'int' in n.get('t', '')]
-    rep.minimum('R17.5', len(divs), 2, 'integer / and % in evaluateExpr')
-    for d in divs:
-        div = strip(d['c'][1])
-        lid = div['ref'].get('lid') if div['k'] == 'DeclRefExpr' else None
-        ok = False
-        if lid is not None:
-            for bid, b in g.blocks.items():
-                c = b.get('cond')
-                if c is None or c not in ev.nodes:
-                    continue
-                cn = strip(ev.nodes[c])
-                zero_edge = None
-                if cn['k'] == 'BinaryOperator' and cn.get('op') in ('==', '!='):
-                    l, r = strip(cn['c'][0]), strip(cn['c'][1])
-                    if l['k'] == 'DeclRefExpr' and l['ref'].get('lid') == lid and tab.const_of(r) == 0:
-                        zero_edge = True if cn['op'] == '==' else False
-                if zero_edge is None:
-                    continue
-                succ = g.succ_labeled(bid)
-                zs = [s for s, lab in succ if lab is zero_edge]
-                nz = [s for s, lab in succ if lab is (not zero_edge)]
-                if not zs or d['id'] not in g.pos:
-                    continue
-                # the division is not reachable from the zero edge, and every path to it passes this test
-                tgt = g.pos[d['id']][0]
-                from_zero = tgt in g.reachable_blocks(zs[0])
-                # paths avoiding the test block
-                seen = {g.entry}
-                work = [g.entry]
-                while work:
-                    x = work.pop()
-                    for s in g.succ(x):
-                        if s != bid and s not in seen:
-                            seen.add(s)
-                            work.append(s)
-                if not from_zero and tgt not in seen:
-                    ok = True
-        rep.check(ok, 'R17.5', 'evaluateExpr|%s' % d['op'], locstr(d), 'integer %s with divisor `%s`: zero test that leaves the arm %s' % (d['op'], fb.text(d['c'][1]), 'dominates it' if ok else 'is MISSING (SIGFPE)'))
-    # array index guards
-    idx_sites = 0
-    for fq in ('uscxml::PromelaDataModel::setVariable', 'uscxml::PromelaDataModel::getVariable'):
-      for f in fb.fns(fq):
-        for n in f.walk():
-            if n['k'] == 'DeclStmt' and n.get('decls') and n['decls'][0]['name'] == 'index' and n['decls'][0]['t'] == 'int':
-                lid = n['decls'][0]['lid']
-                comp = f.parent(n)
-                lower = upper = False
-                for s in sub(comp):
-                    if s['k'] == 'BinaryOperator' and s.get('op') in ('<', '<=', '>', '>='):
-                        l, r = strip(s['c'][0]), strip(s['c'][1])
-                        li = l['k'] == 'DeclRefExpr' and l['ref'].get('lid') == lid
-                        ri = r['k'] == 'DeclRefExpr' and r['ref'].get('lid') == lid
-                        if li and tab.const_of(r) == 0 and s['op'] == '<':
-                            lower = True
-                        if ri and tab.const_of(l) == 0 and s['op'] == '>':
-                            lower = True
-                        if (ri and s['op'] in ('<=', '<')) or (li and s['op'] in ('>=', '>')):
-                            if tab.const_of(l if ri else r) is None:
-                                upper = True
-                idx_sites += 1
-                rep.check(lower and upper, 'R17.5', '%s|index-bounds' % fq, locstr(n), 'array index is tested against the declared size: %s, against 0: %s' % (upper, lower))
-    rep.minimum('R17.5', idx_sites, 2, 'array index computations in get/setVariable')
+    check_divisions(rep, fb, 'R17.5')
+    check_index_bounds(rep, fb, 'R17.5')
